@@ -14,6 +14,10 @@
      C13_RollbackObs / C13_DiscardObs  compare the REAL projection logged after Rollback(cp) / Discard with
        the REAL projection logged when the op log had length cp / 0 (pure observation: the model is not involved)
      C13_CommitNetObs  the REAL Cache calls against the REAL op log (kind, pod, undo target) logged at CommitBegin
+     C13_UnevictObs    after Unevict(p) (or a Pipeline that the code turns into it) everything the session says about p equals
+                       the REAL projection logged before p's latest Evict - whatever the op log says
+     C13_NoPhantomObs  after Commit returned (complete, or stopped by a failed bind) no pod that this statement changed
+                       virtually is left without a successful Cache call for it, and none is left Allocated
      C14_*Obs          the REAL counters against truth recomputed by this spec from the REAL pod statuses,
                        at every logged state (including the undo steps inside Rollback / Discard / Commit)
      D_*               the model of Stmt.tla re-executed in lock-step against the real state (drift, never a violation)
